@@ -184,6 +184,7 @@ func rulesC02(c *Ctx) {
 	c02Round4(c)
 	pendingFallbackRule(c, "C02.dbptr")
 	writeLogModeRule(c, "C02.mutate")
+	remoteNodePresentRule(c, "C02.mutate")
 	treeMutateRules(c, "C02.mutate")
 	atomicRules(c, "C02.atomic", []string{"storage/mkvs.(*tree).doInsert", "storage/mkvs.(*tree).doRemove", "storage/mkvs.(*tree).Insert", "storage/mkvs.(*tree).RemoveExisting"})
 	hopsRule(c, "C02.writelog")
